@@ -432,14 +432,9 @@ impl G<'_> {
                     _ => self.stream(d - 1),
                 };
                 let x = self.fresh("v");
-                let upd = match self.rng.usize(3) {
-                    0 => T::Inc,
-                    1 => T::AddVar(x.clone()),
-                    _ => {
-                        let m = self.mk();
-                        T::Pipe(bx(m), bx(T::Inc))
-                    }
-                };
+                self.vars.push(x.clone());
+                let upd = self.update(&x);
+                self.vars.pop();
                 let ext = match self.rng.usize(3) {
                     0 => None,
                     1 => Some(bx(T::Var(x.clone()))),
@@ -450,7 +445,7 @@ impl G<'_> {
             25 => {
                 let src = self.stream(d - 1);
                 let x = self.fresh("v");
-                let upd = if self.rng.chance(1, 2) { T::Inc } else { T::AddVar(x.clone()) };
+                let upd = if self.rng.chance(1, 2) { self.update(&x) } else if self.rng.chance(1, 2) { T::Inc } else { T::AddVar(x.clone()) };
                 T::Reduce(bx(src), x, 0, bx(upd))
             }
             26 => T::Arr(bx(self.stream(d - 1))),
@@ -465,6 +460,35 @@ impl G<'_> {
                 T::Pipe(bx(a), bx(T::Inc))
             }
             _ => self.stream(d - 1),
+        }
+    }
+    /// the update of a fold: one or several outputs, possibly with effects behind the first
+    fn update(&mut self, x: &str) -> T {
+        let bx = Box::new;
+        let one = |g: &mut Self| match g.rng.usize(3) {
+            0 => T::Inc,
+            1 => T::AddVar(x.to_string()),
+            _ => {
+                let m = g.mk();
+                T::Pipe(bx(m), bx(T::Inc))
+            }
+        };
+        match self.rng.usize(8) {
+            0..=3 => one(self),
+            4 | 5 => {
+                let a = one(self);
+                let b = one(self);
+                T::Comma(bx(a), bx(b))
+            }
+            6 => {
+                let a = one(self);
+                let h = self.hazard();
+                T::Comma(bx(a), bx(h))
+            }
+            _ => {
+                let a = one(self);
+                T::Comma(bx(T::Empty), bx(a))
+            }
         }
     }
     /// an endless generator carrying a probe per iteration
